@@ -19,7 +19,7 @@ back-fill counts, start-time sums (runtime relations; no static argument in reac
 import panicfree
 from callgraph import callgraph
 from facts import short
-from mir import body_of, callee_path, op_place, place_key
+from mir import body_of, callee_path, op_place, place_key, strip_generics
 from packs_common import muxer_entries, io_fallible_set, IO_TRAITS
 from panicfree import fn_short
 from report import site_of
@@ -211,6 +211,21 @@ def run(fx, chk, tier):
         L = [l for l in ls if flush_calls[0] in l.blocks]
         nb, nt = LP.driver_next_call(wbody, L[0], ls) if L else (None, None)
         ok = nt is not None and "IterMut" in (nt["callee"].get("full") or "") and "Mp4TrackWriter" in (nt["callee"].get("full") or "")
+    visit = None
+    if not ok and len(moov_w) == 1 and not flush_calls:
+        # the per-track flush may sit in a closure handed to a visit-every-element combinator over the track writers
+        for cid in [k for k in fx.fns if k.startswith(we["id"] + "::{closure")]:
+            cb = body_of(fx.fns[cid])
+            if cb is None or not any(callee_path(t["callee"]) == twe["id"] for _b, t in cb.calls()):
+                continue
+            for b, t in wbody.calls():
+                full = t["callee"].get("full") or ""
+                last_ = strip_generics(t["callee"].get("path") or "").split("::")[-1]
+                uses_closure = any(cid.split("::")[-1].strip("{}") in (a.get("ty") or (op_place(a) or {}).get("ty") or "") or "closure" in ((op_place(a) or {}).get("ty") or "") for a in t["args"])
+                if last_ in ("try_for_each", "try_fold", "for_each") and full.startswith("<core::slice::iter::IterMut<") and "Mp4TrackWriter" in full.split(" as ")[0] and uses_closure:
+                    if not wbody.can_reach(moov_w[0], b):
+                        visit = (cid, b, last_)
+        ok = visit is not None
     chk.require(ok, "R2", "write_end|all-tracks", "track write_end called in the loop over the track writers, before moov.write_box",
                 "Mp4Writer::write_end does not flush every track writer before producing the movie box", site_of(we))
     # R2 (b)-(f): stated over effect traces of the track writer's entry points (muxrules M1-M4): independent of how the
@@ -274,6 +289,34 @@ def run(fx, chk, tier):
     chk.require(ok, "R4", "write_sample", "tracks[track_id - 1]", "write_sample does not address track track_id - 1", site_of(ww))
     pushes = [(b, t) for b, t in wbody.calls() if (t["callee"].get("path") or "").endswith("Vec::<T, A>::push") and wbody.op_str(t["args"][0]).endswith("moov.traks")]
     ok = len(pushes) == 1 and flush_calls and wbody.in_loop(pushes[0][0]) and wbody.dominates(flush_calls[0], pushes[0][0])
+    if not ok and visit is not None:
+        # closure form: inside the closure the flush result is pushed to moov.traks after the flush; the combinator walks
+        # IterMut front to back (a reversed or filtered adapter would show in the receiver type, which is the plain IterMut)
+        cb = body_of(fx.fns[visit[0]])
+        fl = [b for b, t in cb.calls() if callee_path(t["callee"]) == twe["id"]]
+        def capture_src(op):
+            """rendering, in write_end, of the variable a closure operand reaches through its environment"""
+            txt = cb.canon_op(op)
+            pl_ = op_place(op)
+            seen_ = 0
+            while pl_ is not None and seen_ < 6:
+                seen_ += 1
+                if pl_["l"] == 1:
+                    idx = [x.get("i") for x in pl_["p"] if isinstance(x, dict) and "f" in x]
+                    if idx:
+                        for pb_ in range(wbody.n):
+                            for st_ in wbody.stmts(pb_):
+                                if st_["k"] == "assign" and st_["rv"]["k"] == "agg" and st_["rv"].get("ak") == "closure" and st_["rv"].get("def") == visit[0] and idx[0] is not None and idx[0] < len(st_["rv"]["ops"]):
+                                    return wbody.canon_op(st_["rv"]["ops"][idx[0]])
+                    return txt
+                sd_ = cb.single_def(pl_["l"])
+                if sd_ is None or sd_[2] != "assign":
+                    return txt
+                rv_ = sd_[3]
+                pl_ = rv_.get("place") if rv_["k"] == "ref" else (op_place(rv_["a"]) if rv_["k"] in ("use", "cast") else None)
+            return txt
+        pu = [b for b, t in cb.calls() if (t["callee"].get("path") or "").endswith("Vec::<T, A>::push") and "traks" in capture_src(t["args"][0])]
+        ok = len(fl) == 1 and len(pu) == 1 and cb.dominates(fl[0], pu[0])
     chk.require(ok, "R4", "write_end", "traks pushed in track-vector order", "write_end does not emit the trak boxes in the order of the track vector", site_of(we))
     # ---------------- R6 / R7
     import c01_tables
